@@ -370,7 +370,7 @@ fn script_handshake(rng: &mut Rng, tier: Tier, f: &mut dyn FnMut(&str) -> String
     let two_addrs = rng.chance(1, 3);
     let wild = rng.chance(1, 8);
     let srv_addrs: Vec<String> = if wild {
-        vec![WILD_4.to_string()]
+        vec![rng.pick(&[WILD_4, MAPPED_A]).to_string()]
     } else if two_addrs {
         vec![SRV_A.to_string(), SRV_B.to_string()]
     } else {
@@ -2128,6 +2128,23 @@ fn wire_body_len(term: &str) -> usize {
     }
 }
 
+/// IPv6 addresses with a special form: IPv4-mapped (::ffff:a.b.c.d), IPv4-compatible (::a.b.c.d), loopback, unspecified,
+/// an ffff group elsewhere, the NAT64 prefix — each of them is a 16-byte value of its own on the wire
+const SPECIAL_V6: &[&str] = &[
+    "00000000000000000000ffff7f000001",
+    "00000000000000000000ffff0a000007",
+    "00000000000000000000ffff00000000",
+    "00000000000000000000ffffffffffff",
+    "0000000000000000000000007f000001",
+    "00000000000000000000000000000001",
+    "00000000000000000000000000000000",
+    "0000000000000000ffff00000a000007",
+    "0064ff9b0000000000000000c0000201",
+    "fe80000000000000000000000000ffff",
+];
+
+const MAPPED_A: &str = "6:00000000000000000000ffff7f000001:5000";
+
 fn gen_addr_list(rng: &mut Rng, n: usize, holes: bool) -> String {
     if n == 0 {
         return "-".into();
@@ -2136,6 +2153,8 @@ fn gen_addr_list(rng: &mut Rng, n: usize, holes: bool) -> String {
         .map(|i| {
             if holes && i > 0 && rng.chance(1, 5) {
                 "_".to_string()
+            } else if rng.chance(1, 5) {
+                format!("6:{}:{}", rng.pick(SPECIAL_V6), rng.pick(&[0u16, 1, 5000, 65535]))
             } else if rng.chance(1, 2) {
                 a4(rng.below(256) as u8, rng.below(256) as u8, 0, i as u8, rng.pick(&[0u16, 1, 5000, 65535]))
             } else {
@@ -2547,7 +2566,7 @@ fn script_wire(rng: &mut Rng, tier: Tier, f: &mut dyn FnMut(&str) -> String) {
 // profile 0: nc-regress — one fixed op list per repaired defect (deterministic, run on every check)
 // =============================================================================================
 
-const REGRESS_CASES: usize = 31;
+const REGRESS_CASES: usize = 32;
 
 fn regress_script(case: usize, f: &mut dyn FnMut(&str) -> String) {
     let mut rng = Rng::new(0xD1CE + case as u64);
@@ -2556,7 +2575,13 @@ fn regress_script(case: usize, f: &mut dyn FnMut(&str) -> String) {
     let key = k32(rng);
     let ckey = k32(rng);
     let proto = 7u64;
-    let hosts = if case == 30 { format!("{},{}", WILD_4, WILD_6) } else { SRV_A.to_string() };
+    let hosts = if case == 30 {
+        format!("{},{}", WILD_4, WILD_6)
+    } else if case == 31 {
+        MAPPED_A.to_string()
+    } else {
+        SRV_A.to_string()
+    };
     let max = match case {
         7 | 19 | 22 => 1,
         13 => 3,
@@ -3443,6 +3468,44 @@ fn regress_script(case: usize, f: &mut dyn FnMut(&str) -> String) {
             }
             sc.op("srv-dump 0");
         }
+        // a server announced under an IPv4-mapped IPv6 address: tokens listing special IPv6 forms round-trip (write/read,
+        // seal/open), and the token issued for exactly that address connects
+        31 => {
+            for (j, ip) in SPECIAL_V6.iter().enumerate().take(6) {
+                let list = format!("6:{}:{},{}", ip, 5000 + j, a4(10, 1, 2, 3, 4));
+                let spec = base_spec(rng, 70 + j as u64, proto, key, 5, &list);
+                sc.op("note rt");
+                let out = sc.op(&format!(
+                    "ptok-seal {} {} {} {} {} {} {} {} {} {}",
+                    proto, spec.expire, hex(&spec.xnonce), hex(&key), spec.id, spec.timeout, list, hex(&spec.c2s), hex(&spec.s2c), hex(&spec.ud)
+                ));
+                if let Some(p) = out.strip_prefix("ok ") {
+                    let p = p.to_string();
+                    sc.op(&format!("ptok-open {} {} {} {} {}", proto, spec.expire, hex(&spec.xnonce), hex(&key), p));
+                    sc.op("note rt");
+                    let out = sc.op(&format!(
+                        "tok-write {} {} {} {} {} {} {} {} {} {} {}",
+                        spec.id, VERSION_HEX, proto, spec.create, spec.expire, hex(&spec.xnonce), p, spec.timeout, list, hex(&spec.c2s), hex(&spec.s2c)
+                    ));
+                    if let Some(t) = out.strip_prefix("ok ") {
+                        let t = t.to_string();
+                        sc.op(&format!("tok-read {}", t));
+                    }
+                }
+            }
+            for i in 0..2usize {
+                if let (_, Some(k)) = sc.opd(&format!("cli-upd {} 0", i)) {
+                    let req = sc.hist[k].bytes.clone();
+                    sc.op(&format!("cli-q {}", i));
+                    if let (_, Some(k)) = sc.opd(&format!("srv-rx 0 {} {}", cls[i].addr, hex(&req))) {
+                        let ch = sc.hist[k].bytes.clone();
+                        answer_challenge(&mut sc, i as u64, &cls[i].addr.clone(), &ch, Some("expect-connected"));
+                    }
+                }
+                sc.op(&format!("srv-q 0 {}", cls[i].tok.spec.id));
+            }
+            sc.op("srv-dump 0");
+        }
         // sequence 2^64-1 (the window's EMPTY sentinel) from the owner of a session
         _ => {
             fast_connect(&mut sc, &cls[0]);
@@ -3995,6 +4058,76 @@ fn pending_full_ops(case: usize) -> Vec<String> {
 }
 
 // =============================================================================================
+// profile nc-seq-wrap (C17, one fixed heavy case): many thousands of handshake replies to one peer between the
+// handshake replies to another, all inside one connection attempt of the latter: 8192 and 8193 replies apart (a reply
+// counter kept in a window of 8191 / 8192 / 8193 values would hand A the same sequence number twice under its key).
+// Datagrams are referred to by history index (`@k`) to keep the op lines short.
+// =============================================================================================
+
+fn seq_wrap_script(_case: usize, f: &mut dyn FnMut(&str) -> String) {
+    let mut rng = Rng::new(0x5E9);
+    let rng = &mut rng;
+    let mut sc = Sc::new(f);
+    let key = k32(rng);
+    let ckey = k32(rng);
+    let proto = 7u64;
+    sc.op(&format!("srv-new 0 5000000 4 {} 1 {} {} {}", proto, hex(&key), hex(&ckey), SRV_A));
+    let addr = [a4(10, 12, 0, 1, 4121), a4(10, 12, 0, 2, 4122)];
+    let mut cls: Vec<Cl> = vec![];
+    for i in 0..2u64 {
+        let mut spec = base_spec(rng, 8100 + i, proto, key, 5, SRV_A);
+        spec.expire = 605;
+        spec.seal_expire = 605;
+        spec.timeout = 5;
+        spec.ud = vec![];
+        if let Some(c) = new_client(&mut sc, i, &addr[i as usize], &spec, 5_000_000) {
+            cls.push(c);
+        }
+    }
+    sc.op("note setup-done");
+    if cls.len() < 2 {
+        return;
+    }
+    let (ka, kb) = match (sc.opd("cli-upd 0 0").1, sc.opd("cli-upd 1 0").1) {
+        (Some(a), Some(b)) => (a, b),
+        _ => return,
+    };
+    // history indices are those of the world: every emitted datagram counts, in op order
+    let mut emitted = sc.hist.len();
+    let (idx_a, idx_b) = (ka, kb);
+    let mut last_chal: Option<usize> = None;
+    let mut knock_a = |sc: &mut Sc, emitted: &mut usize, last: &mut Option<usize>| {
+        let (_, e) = sc.opd(&format!("srv-rx 0 {} @{}", addr[0], idx_a));
+        if let Some(k) = e {
+            *last = Some(k);
+            *emitted += 1;
+        }
+    };
+    knock_a(&mut sc, &mut emitted, &mut last_chal);
+    for gap in [8191u32, 8192] {
+        for _ in 0..gap {
+            if sc.opd(&format!("srv-rx 0 {} @{}", addr[1], idx_b)).1.is_some() {
+                emitted += 1;
+            }
+        }
+        sc.op("cli-upd 0 250000"); // (A's retransmission is due; the recorded request is byte-identical)
+        knock_a(&mut sc, &mut emitted, &mut last_chal);
+    }
+    let _ = emitted;
+    sc.op("srv-dump 0");
+    // A's handshake completes with the latest challenge
+    if let Some(k) = last_chal {
+        let ch = sc.hist[k].bytes.clone();
+        answer_challenge(&mut sc, 0, &addr[0], &ch, None);
+    }
+    sc.op("srv-dump 0");
+}
+
+fn seq_wrap_ops(case: usize) -> Vec<String> {
+    fixed_ops(case, seq_wrap_script)
+}
+
+// =============================================================================================
 // profile nc-window (C04, wire level): packets of the three replay-protected kinds at sequences
 // {s, s±1, s±255, s±256, s±257, s±512} pushed through ONE window in random order with repetitions
 // =============================================================================================
@@ -4175,6 +4308,16 @@ pub fn profiles() -> Vec<Profile> {
             nontrivial: |_| true,
             keep: |ops| ops.len(),
             fixed: Some(pending_full_ops),
+        },
+        Profile {
+            name: "nc-seq-wrap",
+            props: &["C17"],
+            cases: |_| 1,
+            new_world,
+            script: |_, _, _| {},
+            nontrivial: |_| true,
+            keep: |ops| ops.len(),
+            fixed: Some(seq_wrap_ops),
         },
         Profile {
             name: "nc-window",
@@ -6003,9 +6146,9 @@ pub fn oracles() -> Vec<Oracle> {
         Oracle { prop: "C19", name: "nc-no-amplification", engines: NC_ALL, check: oracle_amplification },
         Oracle { prop: "C10", name: "nc-connection-table", engines: &["nc-handshake", "nc-attacker", "nc-session", "nc-hostile", "nc-regress", "nc-pending-full"], check: oracle_table },
         Oracle { prop: "C05", name: "nc-connect-justified", engines: &["nc-handshake", "nc-attacker", "nc-session", "nc-hostile", "nc-regress", "nc-table-full"], check: oracle_connect_justified },
-        Oracle { prop: "C17", name: "nc-nonce-unique", engines: &["nc-handshake", "nc-session", "nc-hostile", "nc-regress", "nc-failover"], check: oracle_nonce },
+        Oracle { prop: "C17", name: "nc-nonce-unique", engines: &["nc-handshake", "nc-session", "nc-hostile", "nc-regress", "nc-failover", "nc-seq-wrap"], check: oracle_nonce },
         Oracle { prop: "C17", name: "nc-tampered-rejected", engines: &["nc-wire", "nc-regress", "nc-handshake", "nc-session", "nc-failover"], check: oracle_mutated_rejected },
-        Oracle { prop: "C16", name: "nc-wire-roundtrip", engines: &["nc-wire"], check: oracle_roundtrip },
+        Oracle { prop: "C16", name: "nc-wire-roundtrip", engines: &["nc-wire", "nc-regress"], check: oracle_roundtrip },
         Oracle { prop: "C04", name: "nc-payloads-authentic-once", engines: &["nc-session", "nc-handshake", "nc-hostile", "nc-known", "nc-regress", "nc-failover"], check: oracle_payloads },
         Oracle { prop: "C04", name: "nc-window-once", engines: &["nc-window"], check: oracle_window_once },
         Oracle { prop: "C20", name: "nc-stale-handshake-harmless", engines: &["nc-attacker", "nc-regress"], check: oracle_stale_handshake_harmless },
